@@ -990,6 +990,8 @@ fn column_family(r: &Report, d: &Delims, names: &Names, cfg: &Cfg) {
                 format!("{pre}{o}\n{pre}zあ\n{pre}{c}{pre}\nw\n"),
                 format!("{pre}{po}x{c}{pre}q\n{pre}{o}\tk{c}\n"),
                 format!("b{pre}{o}\n\n{pre}\n\t{c} あ"),
+                // tabs only on an inner line and behind the end marker
+                format!("{pre}{o}\n\tinner\n{pre}{c}\ttail\n"),
             ];
             for t in &templates {
                 for a in &above {
